@@ -267,3 +267,28 @@ theorem idx_unique_of_count_le_one {α : Type} [DecidableEq α] :
 
 theorem mem_range_succ_iff (k i : Nat) : i ∈ List.range (k + 1) ↔ i ∈ List.range k ∨ i = k := by
   simp [List.mem_range]; omega
+
+/-! ### C14 (PlantUML): the link collection `INC` and the mapped sequences `DECLS` / `RELS` / attribute lines -/
+
+/-- INC(q, l) := some vertex of q lists l.  Snoc unfolding used by the loop invariant. -/
+theorem inc_snoc {α β : Type} [DecidableEq β] (links : α → List β) (q : List α) (v : α) (l : β) :
+    (q ++ [v]).any (fun w => decide (l ∈ links w)) = (q.any (fun w => decide (l ∈ links w)) || decide (l ∈ links v)) := by
+  simp [List.any_append]
+
+/-- a link listed by a member is collected: with I1 (a link is listed by each of its ends) every internal link has INC. -/
+theorem inc_of_mem {α β : Type} [DecidableEq β] (links : α → List β) (q : List α) (v : α) (l : β)
+    (hv : v ∈ q) (hl : l ∈ links v) : q.any (fun w => decide (l ∈ links w)) = true := by
+  simp only [List.any_eq_true, decide_eq_true_eq]
+  exact ⟨v, hv, hl⟩
+
+/-- DECLS / RELS: map over the processed prefix, snoc unfolding. -/
+theorem map_snoc {α γ : Type} (f : α → γ) (q : List α) (v : α) : (q ++ [v]).map f = q.map f ++ [f v] := by
+  simp
+
+/-- a duplicate-free enumeration of a finite set lists each element exactly once (one relation line per collected link). -/
+theorem count_eq_one_of_nodup_mem {β : Type} [DecidableEq β] (p : List β) (l : β) (hn : p.Nodup) (hm : l ∈ p) : p.count l = 1 :=
+  List.count_eq_one_of_mem hn hm
+
+/-- `lst += s` extends the list by pieces and `"".join` concatenates: join distributes over append. -/
+theorem join_append_pieces (a b : List String) : String.join (a ++ b) = String.join a ++ String.join b :=
+  String.join_append
